@@ -39,58 +39,62 @@ theorem Pres.ite {P : σ → Prop} {c : Prop} [Decidable c] {x y : M σ α} (hx 
     (hy : Pres P y) : Pres P (if c then x else y) := by
   split <;> assumption
 
-/-- a reader kind all of whose state-changing methods preserve `P` -/
-structure Core.Safe (C : Core σ) (P : σ → Prop) : Prop where
-  empty : ∀ s, P s → P (C.empty s)
+/-- the state-changing required methods other than `empty` preserve `P` -/
+structure Core.SafeNE (C : Core σ) (P : σ → Prop) : Prop where
   truncate : ∀ n, Pres P (C.truncate n)
   skip : ∀ n, Pres P (C.skip n)
   split : ∀ n, PresNew P (C.split n)
   readSlice : ∀ n, Pres P (C.readSlice n)
 
-structure Impl.Safe (I : Impl σ) (P : σ → Prop) : Prop extends Core.Safe I.toCore P where
+/-- a reader kind all of whose state-changing methods other than `empty` preserve `P` -/
+structure Impl.SafeNE (I : Impl σ) (P : σ → Prop) : Prop extends toCoreSafeNE : Core.SafeNE I.toCore P where
   readAddress : ∀ m e n, Pres P (I.readAddress m e n)
   readOffset : ∀ m e f, Pres P (I.readOffset m e f)
   readSizedOffset : ∀ m e n, Pres P (I.readSizedOffset m e n)
 
+/-- … and `empty` too -/
+structure Impl.Safe (I : Impl σ) (P : σ → Prop) : Prop extends toImplSafeNE : Impl.SafeNE I P where
+  empty : ∀ s, P s → P (I.empty s)
+
 namespace Dflt
 variable {C : Core σ} {P : σ → Prop}
 
-theorem readFixed_pres (h : C.Safe P) (e : Endian) (n : Nat) : Pres P (readFixed C e n) :=
+theorem readFixed_pres (h : C.SafeNE P) (e : Endian) (n : Nat) : Pres P (readFixed C e n) :=
   Pres.bind (h.readSlice n) (fun _ => Pres.pure P _)
 
-theorem readSigned_pres (h : C.Safe P) (e : Endian) (n : Nat) : Pres P (readSigned C e n) :=
+theorem readSigned_pres (h : C.SafeNE P) (e : Endian) (n : Nat) : Pres P (readSigned C e n) :=
   Pres.bind (h.readSlice n) (fun _ => Pres.pure P _)
 
-theorem readUint_pres (h : C.Safe P) (e : Endian) (n : Nat) : Pres P (readUint C e n) := by
+theorem readUint_pres (h : C.SafeNE P) (e : Endian) (n : Nat) : Pres P (readUint C e n) := by
   unfold readUint
   exact Pres.ite (Pres.liftOut P _) (Pres.bind (h.readSlice n) (fun _ => Pres.pure P _))
 
-theorem readAddress_pres (h : C.Safe P) (e : Endian) (n : Nat) : Pres P (readAddress C e n) := by
+theorem readAddress_pres (h : C.SafeNE P) (e : Endian) (n : Nat) : Pres P (readAddress C e n) := by
   unfold readAddress
   exact Pres.ite (readFixed_pres h e n) (Pres.fail P _)
 
-theorem readWord_pres (h : C.Safe P) (e : Endian) (f : Format) : Pres P (readWord C e f) := by
+theorem readWord_pres (h : C.SafeNE P) (e : Endian) (f : Format) : Pres P (readWord C e f) := by
   unfold readWord
   cases f
   · exact readFixed_pres h e 4
   · exact Pres.bind (readFixed_pres h e 8) (fun _ => Pres.liftOut P _)
 
-theorem readSizedOffset_pres (h : C.Safe P) (e : Endian) (n : Nat) :
+theorem readSizedOffset_pres (h : C.SafeNE P) (e : Endian) (n : Nat) :
     Pres P (readSizedOffset C e n) := by
   unfold readSizedOffset
   exact Pres.ite (Pres.bind (readFixed_pres h e n) (fun _ => Pres.liftOut P _)) (Pres.fail P _)
 
-theorem readInitialLength_pres (h : C.Safe P) (e : Endian) : Pres P (readInitialLength C e) := by
+theorem readInitialLength_pres (h : C.SafeNE P) (e : Endian) : Pres P (readInitialLength C e) := by
   unfold readInitialLength
   refine Pres.bind (readFixed_pres h e 4) (fun v => ?_)
   refine Pres.ite (Pres.pure P _) (Pres.ite ?_ (Pres.fail P _))
   exact Pres.bind (readFixed_pres h e 8) (fun _ => Pres.bind (Pres.liftOut P _) (fun _ => Pres.pure P _))
 
-theorem readAddressSize_pres (h : C.Safe P) : Pres P (readAddressSize C) := by
+theorem readAddressSize_pres (h : C.SafeNE P) : Pres P (readAddressSize C) := by
   unfold readAddressSize
   exact Pres.bind (readFixed_pres h .little 1) (fun _ => Pres.ite (Pres.pure P _) (Pres.fail P _))
 
-theorem via_pres {γ : Type} (h : C.Safe P) (f : Bytes → Out (γ × Bytes)) (adv : Bytes → Err → Nat) :
+theorem via_pres {γ : Type} (h : C.SafeNE P) (f : Bytes → Out (γ × Bytes)) (adv : Bytes → Err → Nat) :
     Pres P (via C f adv) := by
   intro s hs
   unfold via
@@ -106,11 +110,11 @@ theorem via_pres {γ : Type} (h : C.Safe P) (f : Bytes → Out (γ × Bytes)) (a
   | panic w => exact hs
   | diverge => exact hs
 
-theorem readUleb32_pres (h : C.Safe P) : Pres P (readUleb32 C) := by
+theorem readUleb32_pres (h : C.SafeNE P) : Pres P (readUleb32 C) := by
   unfold readUleb32
   exact Pres.bind (via_pres h _ _) (fun _ => Pres.ite (Pres.pure P _) (Pres.fail P _))
 
-theorem readNts_presNew (h : C.Safe P) : PresNew P (readNts C) := by
+theorem readNts_presNew (h : C.SafeNE P) : PresNew P (readNts C) := by
   intro s hs
   unfold readNts
   simp only [M.bind, M.liftOut, M.pure]
@@ -141,9 +145,9 @@ theorem readNts_presNew (h : C.Safe P) : PresNew P (readNts C) := by
 end Dflt
 
 /-- a kind that overrides nothing is safe as soon as its required methods are -/
-theorem Core.Safe.withDefaults {C : Core σ} {P : σ → Prop} (h : C.Safe P) :
-    C.withDefaults.Safe P where
-  toSafe := h
+theorem Core.SafeNE.withDefaults {C : Core σ} {P : σ → Prop} (h : C.SafeNE P) :
+    C.withDefaults.SafeNE P where
+  toCoreSafeNE := h
   readAddress := fun _ e n => Dflt.readAddress_pres h e n
   readOffset := fun _ e f => Dflt.readWord_pres h e f
   readSizedOffset := fun _ e n => Dflt.readSizedOffset_pres h e n
@@ -222,7 +226,7 @@ theorem runQ_all (st : St σ) (i : Nat) (q : σ → Out Val) (h : st.All P) :
 theorem step_all (hI : I.Safe P) (m : Mode) (e : Endian) (valid : Bytes → Bool)
     (lossy : Bytes → Bytes) (st : St σ) (op : Op) (h : st.All P) :
     (step I m e valid lossy st op).2.All P := by
-  have hC : I.toCore.Safe P := hI.toSafe
+  have hC : I.toCore.SafeNE P := hI.toImplSafeNE.toCoreSafeNE
   cases op with
   | fixed i n => exact runM_all st i _ h (Pres.map _ (Dflt.readFixed_pres hC e n))
   | signed i n => exact runM_all st i _ h (Pres.map _ (Dflt.readSigned_pres hC e n))
@@ -231,7 +235,7 @@ theorem step_all (hI : I.Safe P) (m : Mode) (e : Endian) (valid : Bytes → Bool
   | skip i n => exact runM_all st i _ h (Pres.map _ (hC.skip n))
   | split i n => exact runNew_all st i _ h (hC.split n)
   | trunc i n => exact runM_all st i _ h (Pres.map _ (hC.truncate n))
-  | empty i => exact runM_all st i _ h (fun s hs => hC.empty s hs)
+  | empty i => exact runM_all st i _ h (fun s hs => hI.empty s hs)
   | find i b => exact runQ_all st i _ h
   | clone i => exact runNew_all st i _ h (fun s hs => ⟨hs, fun r hr => by cases hr; exact hs⟩)
   | drop i =>
@@ -287,5 +291,190 @@ theorem runHist_all (hI : I.Safe P) (m : Mode) (e : Endian) (valid : Bytes → B
     exact ih _ (step_all hI m e valid lossy st op h)
 
 end
+
+/-! ## `SubRange` pointer arithmetic computes the same windows as safe slicing -/
+
+theorem Shared.truncate_eq (n : Nat) (c : Cur) : Shared.truncate n c = Slice.truncate n c := by
+  unfold Shared.truncate Slice.truncate SubRange.truncate
+  by_cases h : c.len < n
+  · simp [h]
+  · have h' : n ≤ c.len := by omega
+    simp [h, h', commit]
+
+theorem Shared.skip_eq (n : Nat) (c : Cur) : Shared.skip n c = Slice.skip n c := by
+  unfold Shared.skip Slice.skip SubRange.skip
+  by_cases h : c.len < n
+  · simp [h]
+  · have h' : n ≤ c.len := by omega
+    simp [h, h', commit]
+
+theorem Shared.split_eq (n : Nat) (c : Cur) : Shared.split n c = Slice.split n c := by
+  unfold Shared.split Slice.split Slice.readSliceRaw SubRange.truncate SubRange.skip
+  by_cases h : c.len < n
+  · simp [h]
+  · have h' : n ≤ c.len := by omega
+    simp [h, h']
+
+theorem Shared.readSlice_eq (n : Nat) (c : Cur) : Shared.readSlice n c = Slice.readSlice n c := by
+  unfold Shared.readSlice Slice.readSlice Slice.readSliceRaw SubRange.readSlice SubRange.skip M.bind M.pure
+  by_cases h : c.len < n
+  · simp [h]
+  · have h' : n ≤ c.len := by omega
+    simp [h, h', Cur.bytes]
+
+theorem Shared.empty_eq (c : Cur) : Shared.empty c = { c with len := 0 } := by
+  simp [Shared.empty, SubRange.truncate]
+
+/-- `c` is a window of the section `sec`, inside its bounds -/
+def Win (sec : Bytes) (c : Cur) : Prop := c.sec = sec ∧ c.off + c.len ≤ sec.length
+
+theorem Win.ofSec (sec : Bytes) : Win sec (Cur.ofSec sec) := by
+  simp [Win, Cur.ofSec]
+
+theorem sliceCore_safe (sec : Bytes) : sliceCore.SafeNE (Win sec) where
+  truncate := by
+    intro n s hs
+    simp only [sliceCore, Slice.truncate]
+    split
+    · exact hs
+    · exact ⟨hs.1, by have := hs.2; simp only; omega⟩
+  skip := by
+    intro n s hs
+    simp only [sliceCore, Slice.skip]
+    split
+    · exact hs
+    · exact ⟨hs.1, by have := hs.2; simp only; omega⟩
+  split := by
+    intro n s hs
+    simp only [sliceCore, Slice.split, Slice.readSliceRaw]
+    split
+    · exact ⟨hs, fun r hr => by cases hr⟩
+    · refine ⟨⟨hs.1, by have := hs.2; simp only; omega⟩, fun r hr => ?_⟩
+      cases hr
+      exact ⟨hs.1, by have := hs.2; simp only; omega⟩
+  readSlice := by
+    intro n
+    have hraw : Pres (Win sec) (Slice.readSliceRaw n) := by
+      intro s hs
+      simp only [Slice.readSliceRaw]
+      split
+      · exact hs
+      · exact ⟨hs.1, by have := hs.2; simp only; omega⟩
+    exact Pres.bind hraw (fun _ => Pres.pure _ _)
+
+theorem sharedCore_safe (sec : Bytes) : sharedCore.SafeNE (Win sec) where
+  truncate := by
+    intro n s hs
+    simp only [sharedCore, Shared.truncate_eq]
+    exact (sliceCore_safe sec).truncate n s hs
+  skip := by
+    intro n s hs
+    simp only [sharedCore, Shared.skip_eq]
+    exact (sliceCore_safe sec).skip n s hs
+  split := by
+    intro n s hs
+    simp only [sharedCore, Shared.split_eq]
+    exact (sliceCore_safe sec).split n s hs
+  readSlice := by
+    intro n s hs
+    simp only [sharedCore, Shared.readSlice_eq]
+    exact (sliceCore_safe sec).readSlice n s hs
+
+/-- `EndianSlice`: every method keeps the window inside the section -/
+theorem sliceImpl_safe (sec : Bytes) : sliceImpl.Safe (Win sec) where
+  toImplSafeNE := (sliceCore_safe sec).withDefaults
+  empty := by
+    intro s hs
+    exact ⟨hs.1, by have := hs.2; simp only [sliceImpl, Core.withDefaults, sliceCore, Slice.empty]; omega⟩
+
+/-- `EndianReader` (`SubRange`): every method keeps `ptr .. ptr+len` inside the buffer -/
+theorem sharedImpl_safe (sec : Bytes) : sharedImpl.Safe (Win sec) where
+  toImplSafeNE := (sharedCore_safe sec).withDefaults
+  empty := by
+    intro s hs
+    simp only [sharedImpl, Core.withDefaults, sharedCore, Shared.empty_eq]
+    exact ⟨hs.1, by have := hs.2; simp only; omega⟩
+
+/-- attached windows of `sec`: what `EndianSlice` methods other than `empty` preserve -/
+def WinA (sec : Bytes) (c : Cur) : Prop := Win sec c ∧ c.det = false
+
+theorem sliceCore_safeA (sec : Bytes) : sliceCore.SafeNE (WinA sec) where
+  truncate := by
+    intro n s hs
+    refine ⟨(sliceCore_safe sec).truncate n s hs.1, ?_⟩
+    simp only [sliceCore, Slice.truncate]; split <;> exact hs.2
+  skip := by
+    intro n s hs
+    refine ⟨(sliceCore_safe sec).skip n s hs.1, ?_⟩
+    simp only [sliceCore, Slice.skip]; split <;> exact hs.2
+  split := by
+    intro n s hs
+    have h := (sliceCore_safe sec).split n s hs.1
+    refine ⟨⟨h.1, ?_⟩, fun r hr => ⟨h.2 r hr, ?_⟩⟩
+    · simp only [sliceCore, Slice.split, Slice.readSliceRaw]; split <;> exact hs.2
+    · simp only [sliceCore, Slice.split, Slice.readSliceRaw] at hr
+      split at hr
+      · cases hr
+      · cases hr; exact hs.2
+  readSlice := by
+    intro n s hs
+    refine ⟨(sliceCore_safe sec).readSlice n s hs.1, ?_⟩
+    simp only [sliceCore, Slice.readSlice, Slice.readSliceRaw, M.bind, M.pure]
+    by_cases h : s.len < n <;> simp [h, hs.2]
+
+/-! ## `RelocateReader` is as safe as the reader it wraps -/
+
+/-- the `reader` field satisfies `P`, the `section` field (which no method assigns) `Q` -/
+def RWin (P Q : σ → Prop) (s : RCur σ) : Prop := P s.rdr ∧ Q s.sect
+
+theorem onReader_pres {P Q : σ → Prop} {m : M σ α} (hm : Pres P m) :
+    Pres (RWin P Q) (Reloc.onReader m) := fun s hs => ⟨hm s.rdr hs.1, hs.2⟩
+
+theorem relocated_pres {I : Impl σ} {P Q : σ → Prop} (m : Mode) {read : M σ Nat}
+    (hread : Pres P read) (rel : Nat → Nat → Out Nat) :
+    Pres (RWin P Q) (Reloc.relocated I m read rel) := by
+  intro s hs
+  unfold Reloc.relocated
+  cases I.offsetFrom m s.rdr s.sect with
+  | ok o => exact Pres.bind (onReader_pres hread) (fun _ => Pres.liftOut _ _) s hs
+  | err e => exact hs
+  | panic w => exact hs
+  | diverge => exact hs
+
+theorem relocSplit_presNew {I : Impl σ} {P Q : σ → Prop} (hI : I.SafeNE P) (n : Nat) :
+    PresNew (RWin P Q) (Reloc.split I n) := by
+  intro s hs
+  have ht := hI.truncate n s.rdr hs.1
+  have hk := hI.skip n s.rdr hs.1
+  unfold Reloc.split M.bind M.pure Reloc.onReader
+  generalize I.truncate n s.rdr = tr at ht ⊢
+  generalize I.skip n s.rdr = sk at hk ⊢
+  rcases tr with ⟨o1, r1⟩
+  rcases sk with ⟨o2, r2⟩
+  cases o1 with
+  | ok u =>
+    cases o2 with
+    | ok u2 => exact ⟨⟨hk, hs.2⟩, fun r hr => by cases hr; exact ⟨ht, hs.2⟩⟩
+    | err e => exact ⟨⟨hk, hs.2⟩, fun r hr => by cases hr⟩
+    | panic w => exact ⟨⟨hk, hs.2⟩, fun r hr => by cases hr⟩
+    | diverge => exact ⟨⟨hk, hs.2⟩, fun r hr => by cases hr⟩
+  | err e => exact ⟨hs, fun r hr => by cases hr⟩
+  | panic w => exact ⟨hs, fun r hr => by cases hr⟩
+  | diverge => exact ⟨hs, fun r hr => by cases hr⟩
+
+theorem relocImpl_safeNE {I : Impl σ} {P Q : σ → Prop} (hI : I.SafeNE P) (rel : Rel) :
+    (relocImpl I rel).SafeNE (RWin P Q) where
+  truncate := fun n => onReader_pres (hI.truncate n)
+  skip := fun n => onReader_pres (hI.skip n)
+  split := relocSplit_presNew hI
+  readSlice := fun n => onReader_pres (hI.readSlice n)
+  readAddress := fun m e n => relocated_pres m (hI.readAddress m e n) _
+  readOffset := fun m e f => relocated_pres m (hI.readOffset m e f) _
+  readSizedOffset := fun m e n => relocated_pres m (hI.readSizedOffset m e n) _
+
+theorem relocImpl_safe {I : Impl σ} {P Q : σ → Prop} (hI : I.Safe P) (rel : Rel) :
+    (relocImpl I rel).Safe (RWin P Q) where
+  toImplSafeNE := relocImpl_safeNE hI.toImplSafeNE rel
+  empty := fun s hs => ⟨hI.empty s.rdr hs.1, hs.2⟩
 
 end Gimli.Rd
